@@ -2,7 +2,7 @@
    MatrixCardVerifier::get_matrix_coordinates translated from src/matrix_card.rs on this run are the
    model's functions (u8 fields and arguments; the usize arithmetic of the lookup cannot overflow). *)
 From Coq Require Import List NArith Lia ZifyBool ZifyN ZifyNat.
-From WS Require Import lib.Bytes lib.Res lib.StepLoop Consts Steps model.Arr model.MatrixCard proofs.MatrixCard.
+From WS Require Import lib.Bytes lib.Res lib.StepLoop Consts Steps spec.Select model.Arr model.MatrixCard proofs.MatrixCard.
 Import ListNotations.
 Local Open Scope N_scope.
 
@@ -53,4 +53,129 @@ Proof.
   exists cells, cell. split; [exact Hp|]. split; [|split; assumption].
   pose proof (matrix_get_number_at_coordinates_translated {| c_digits := d; c_width := w; c_height := h; c_data := data |} x y) as T.
   cbn [c_digits c_width c_height c_data] in T. rewrite T by (try assumption; nia). rewrite Hg. reflexivity.
+Qed.
+
+(* ================================================================================================
+   generate_coordinates: the body translated from src/matrix_card.rs on this run (identity fill of the
+   index table, then per challenge: remainder / quotient step, pick from the table, close the gap) is
+   the model's generate_coordinates, for every u64 seed and all u8 dimensions. *)
+Lemma set_nth_list_set' : forall (l : list N) n v,
+  set_nth n v l = if (n <? length l)%nat then Some (list_set l n v) else None.
+Proof.
+  induction l as [|x r IH]; intros [|n] v; cbn [set_nth list_set length]; try reflexivity.
+  rewrite IH. change (S n <? S (length r))%nat with (n <? length r)%nat.
+  destruct (n <? length r)%nat; reflexivity.
+Qed.
+
+Definition gc_fill := fun (v_matrix_indices : list N) (v_i : N) =>
+  if N.of_nat (length v_matrix_indices) <=? v_i then None else
+  let v_matrix_indices := list_set v_matrix_indices (N.to_nat v_i) v_i in
+  Some (inr (A := list N) v_matrix_indices).
+
+Lemma gc_fill_loop : forall n j0 v,
+  for_loop gc_fill v (map (fun k => 1 + N.of_nat k) (seq j0 n))
+  = match fill_loop (seq (1 + j0) n) v with Some v' => Some (inr v') | None => None end.
+Proof.
+  induction n as [|n IH]; intros j0 v; [reflexivity|].
+  cbn [seq map for_loop fill_loop]. unfold gc_fill at 1.
+  rewrite set_nth_list_set'.
+  replace (N.to_nat (1 + N.of_nat j0)) with (1 + j0)%nat by lia.
+  replace (N.of_nat (1 + j0)) with (1 + N.of_nat j0) by lia.
+  destruct (N.of_nat (length v) <=? 1 + N.of_nat j0) eqn:E1; destruct (1 + j0 <? length v)%nat eqn:E2; try lia; [reflexivity|].
+  rewrite (IH (S j0)). replace (1 + S j0)%nat with (S (1 + j0)) by lia. reflexivity.
+Qed.
+
+Definition gc_inner := fun (v_matrix_indices : list N) (v_j : N) =>
+  if 18446744073709551615 <? v_j + 1 then None else
+  match nth_error v_matrix_indices (N.to_nat (v_j + 1)) with None => None | Some t2 =>
+  if N.of_nat (length v_matrix_indices) <=? v_j then None else
+  let v_matrix_indices := list_set v_matrix_indices (N.to_nat v_j) t2 in
+  Some (inr (A := list N) v_matrix_indices) end.
+
+Lemma gc_inner_shift : forall n j0 grid lo,
+  lo + N.of_nat j0 + N.of_nat n < 18446744073709551615 ->
+  for_loop gc_inner grid (map (fun k => lo + N.of_nat k) (seq j0 n))
+  = match shift_left n (N.to_nat lo + j0) grid with Some g => Some (inr g) | None => None end.
+Proof.
+  induction n as [|n IH]; intros j0 grid lo Hb; [reflexivity|].
+  cbn [seq map for_loop shift_left]. unfold gc_inner at 1.
+  destruct (18446744073709551615 <? lo + N.of_nat j0 + 1) eqn:E1; [lia|].
+  replace (N.to_nat (lo + N.of_nat j0 + 1)) with (S (N.to_nat lo + j0)) by lia.
+  destruct (nth_error grid (S (N.to_nat lo + j0))) as [v|]; [|reflexivity].
+  rewrite set_nth_list_set'.
+  replace (N.to_nat (lo + N.of_nat j0)) with (N.to_nat lo + j0)%nat by lia.
+  destruct (N.of_nat (length grid) <=? lo + N.of_nat j0) eqn:E3;
+  destruct (N.to_nat lo + j0 <? length grid)%nat eqn:E4; try lia; [reflexivity|].
+  rewrite (IH (S j0)) by lia. replace (N.to_nat lo + S j0)%nat with (S (N.to_nat lo + j0)) by lia. reflexivity.
+Qed.
+
+Definition gc_outer (v_matrix_size : N) := fun '(v_seed, v_coordinates, v_matrix_indices) (v_i : N) =>
+  if v_matrix_size <? v_i then None else
+  let v_count := (v_matrix_size - v_i) in
+  if v_count =? 0 then None else
+  let v_index := (v_seed mod v_count) in
+  match nth_error v_matrix_indices (N.to_nat v_index) with None => None | Some t1 =>
+  if N.of_nat (length v_coordinates) <=? v_i then None else
+  let v_coordinates := list_set v_coordinates (N.to_nat v_i) t1 in
+  if v_count <? 1 then None else
+  match for_loop gc_inner v_matrix_indices (range_list v_index (v_count - 1)) with
+  | None => None
+  | Some (inl r_early) => Some (inl r_early)
+  | Some (inr v_matrix_indices) =>
+  if v_count =? 0 then None else
+  let v_seed := (v_seed / v_count) in
+  Some (inr (v_seed, v_coordinates, v_matrix_indices)) end end.
+
+Definition gc_fin (x : option (list N + (N * list N * list N))) : option (list N) :=
+  match x with Some (inr (_, c, _)) => Some c | Some (inl e) => Some e | None => None end.
+
+Lemma gc_outer_loop : forall is ms seed idx coords,
+  ms < 256 ->
+  gc_fin (for_loop (gc_outer ms) (seed, coords, idx) is) = res_opt (gen_loop is ms seed idx coords).
+Proof.
+  induction is as [|i r IH]; intros ms seed idx coords Hms; [reflexivity|].
+  cbn [for_loop gen_loop]. unfold gc_outer at 1.
+  destruct (ms <? i) eqn:E0; [reflexivity|].
+  destruct (ms - i =? 0) eqn:E1; [reflexivity|].
+  assert (Hc : ms - i <> 0) by (apply N.eqb_neq; exact E1).
+  pose proof (N.mod_lt seed (ms - i) Hc) as Hm.
+  destruct (nth_error idx (N.to_nat (seed mod (ms - i)))) as [v|]; [|reflexivity].
+  rewrite set_nth_list_set'.
+  destruct (N.of_nat (length coords) <=? i) eqn:E2; destruct (N.to_nat i <? length coords)%nat eqn:E3; try lia; [reflexivity|].
+  destruct (ms - i <? 1) eqn:E4; [lia|].
+  unfold range_list.
+  rewrite (gc_inner_shift (N.to_nat (ms - i - 1 - seed mod (ms - i))) 0 idx (seed mod (ms - i))) by lia.
+  rewrite Nat.add_0_r.
+  destruct (shift_left _ _ idx) as [g|]; [|reflexivity].
+  apply IH. exact Hms.
+Qed.
+
+Lemma matrix_generate_coordinates_translated : forall w h cc seed,
+  tr_matrix_generate_coordinates w h cc seed = res_opt (generate_coordinates w h cc seed).
+Proof.
+  intros w h cc seed. unfold tr_matrix_generate_coordinates, generate_coordinates.
+  destruct (255 <? w * h) eqn:E; [reflexivity|].
+  match goal with |- context [for_loop ?b ?s (range_list 1 ?n)] => change (for_loop b s (range_list 1 n)) with (for_loop gc_fill s (range_list 1 n)) end.
+  unfold range_list at 1. rewrite (gc_fill_loop (N.to_nat (w * h - 1)) 0).
+  replace (N.to_nat (w * h - 1)) with (N.to_nat (w * h) - 1)%nat by lia.
+  change (1 + 0)%nat with 1%nat.
+  destruct (fill_loop _ _) as [idx|]; [|reflexivity].
+  match goal with |- context [for_loop ?b ?s (range_list 0 ?n)] => change (for_loop b s (range_list 0 n)) with (for_loop (gc_outer (w * h)) s (range_list 0 n)) end.
+  pose proof (gc_outer_loop (range_list 0 cc) (w * h) seed idx (repeat 0 (N.to_nat cc)) ltac:(lia)) as L.
+  assert (R : range_list 0 cc = map N.of_nat (seq 0 (N.to_nat cc))).
+  { unfold range_list. rewrite N.sub_0_r. apply map_ext. intro k. lia. }
+  rewrite R in L |- *. rewrite <- L. unfold gc_fin.
+  destruct (for_loop (gc_outer (w * h)) _ _) as [[e|[[s c] g]]|]; reflexivity.
+Qed.
+
+(* property level, about the translated function: the challenged cells are distinct cells of the card,
+   drawn by the factorial-base decoding of the seed; no panic *)
+Theorem matrix_source_coordinates : forall w h count seed,
+  1 <= w * h <= 255 -> 1 <= count <= w * h -> seed < 2 ^ 64 ->
+  exists cs, tr_matrix_generate_coordinates w h count seed = Some cs /\
+             cs = select (N.to_nat count) seed (iota (N.to_nat (w * h))) /\
+             length cs = N.to_nat count /\ NoDup cs /\ Forall (fun c => c < w * h) cs.
+Proof.
+  intros w h count seed H1 H2 H3. destruct (coordinates w h count seed H1 H2 H3) as (cs & E & R).
+  exists cs. split; [|exact R]. rewrite matrix_generate_coordinates_translated, E. reflexivity.
 Qed.
